@@ -14,6 +14,7 @@ import (
 	"os"
 	"sort"
 	"strings"
+	"sync/atomic"
 	"time"
 
 	badger "github.com/dgraph-io/badger/v4"
@@ -238,10 +239,12 @@ func unbuildable(c Case) bool {
 	return false
 }
 
-func runCase(c Case, inmem bool) *mismatch {
+// buildPre opens a fresh managed DB and injects the case's pre-layout.
+func buildPre(c Case, inmem bool) (*badger.DB, badger.Options, string, func(), *mismatch) {
 	nlevels := len(c.Pre.Lv) + 1
 	var dir string
 	var o badger.Options
+	cleanup := func() {}
 	if inmem {
 		o = vh.SmallOptions("").WithInMemory(true)
 	} else {
@@ -250,7 +253,7 @@ func runCase(c Case, inmem bool) *mismatch {
 		if err != nil {
 			vh.Fatalf("%v", err)
 		}
-		defer os.RemoveAll(dir)
+		cleanup = func() { os.RemoveAll(dir) }
 		o = vh.SmallOptions(dir)
 	}
 	o.MaxLevels = nlevels
@@ -264,9 +267,8 @@ func runCase(c Case, inmem bool) *mismatch {
 	o.NumLevelZeroTablesStall = 200
 	db, err := badger.OpenManaged(o)
 	if err != nil {
-		return &mismatch{"open.error", err.Error()}
+		return nil, o, dir, cleanup, &mismatch{"open.error", err.Error()}
 	}
-	defer db.Close()
 	now := time.Now()
 	inject := func(level int, t Tab) *mismatch {
 		id, err := db.VerifInjectTable(level, toVerif(t.Ents, t.Big))
@@ -282,7 +284,7 @@ func runCase(c Case, inmem bool) *mismatch {
 	}
 	for _, t := range c.Pre.L0 {
 		if m := inject(0, t); m != nil {
-			return m
+			return db, o, dir, cleanup, m
 		}
 	}
 	for i, lvl := range c.Pre.Lv {
@@ -291,7 +293,7 @@ func runCase(c Case, inmem bool) *mismatch {
 		sort.Slice(ts, func(a, b int) bool { return minK(ts[a]) < minK(ts[b]) })
 		for _, t := range ts {
 			if m := inject(i+1, t); m != nil {
-				return m
+				return db, o, dir, cleanup, m
 			}
 		}
 	}
@@ -299,7 +301,7 @@ func runCase(c Case, inmem bool) *mismatch {
 		mt := append([]Ent(nil), c.Pre.Mt...)
 		sort.Slice(mt, func(i, j int) bool { return mt[i].Ts < mt[j].Ts })
 		if err := db.VerifBatchSet(toVerif(mt, false)); err != nil {
-			return &mismatch{"mt.write.error", err.Error()}
+			return db, o, dir, cleanup, &mismatch{"mt.write.error", err.Error()}
 		}
 	}
 	db.SetDiscardTs(c.Pre.DiscardTs)
@@ -308,6 +310,206 @@ func runCase(c Case, inmem bool) *mismatch {
 	if layoutKey(pre) != layoutKey(c.Pre) {
 		vh.Fatalf("harness: injected layout differs from the case: %s vs %s", layoutKey(pre), layoutKey(c.Pre))
 	}
+	return db, o, dir, cleanup, nil
+}
+
+func compactFor(db *badger.DB, c Case, nlevels int) error {
+	switch c.Fam {
+	case "L0ToBase":
+		return db.VerifDoCompact(1, 0, 1.0, 1.0)
+	case "L0ToL0":
+		return db.VerifDoCompact(0, 0, 1.0, 0.5)
+	case "LevelDown":
+		for i, l := range c.Pre.Lv {
+			if len(l) > 0 && i+1 < nlevels-1 {
+				return db.VerifDoCompact(1, i+1, 1.0, 1.0)
+			}
+		}
+	}
+	vh.Fatalf("unknown family %q", c.Fam)
+	return nil
+}
+
+// runInstall: LSMInstall.tla - one point read interleaved, level by level (gate get.level), with
+// the two installation steps of the case's compaction (gates compact.beforeReplace /
+// compact.beforeDelete). Every interleaving position is enumerated; the read must return what it
+// returns without any compaction running.
+func runInstall(c Case) *mismatch {
+	nlevels := len(c.Pre.Lv) + 1
+	maxTs, nkeys := 0, 0
+	for _, p := range c.Posts {
+		for _, row := range p.Reads {
+			if len(row.At)-1 > maxTs {
+				maxTs = len(row.At) - 1
+			}
+		}
+		if len(p.Reads) > nkeys {
+			nkeys = len(p.Reads)
+		}
+	}
+	const wait = 10 * time.Second
+	for k := 1; k <= nkeys; k++ {
+		for ts := int(c.Pre.DiscardTs); ts <= maxTs; ts++ {
+			if ts == 0 {
+				continue
+			}
+			for p1 := 0; p1 <= nlevels; p1++ { // levels the read has consulted when the first install step runs
+				for p2 := p1; p2 <= nlevels; p2++ { // ... when the second step runs
+					db, _, _, cleanup, m := buildPre(c, true)
+					if m != nil {
+						if db != nil {
+							db.Close()
+						}
+						cleanup()
+						return m
+					}
+					get := func() (uint64, error) {
+						txn := db.NewTransactionAt(uint64(ts), false)
+						defer txn.Discard()
+						item, err := txn.Get(keyOf(k))
+						if err == badger.ErrKeyNotFound {
+							return 0, nil
+						}
+						if err != nil {
+							return 0, err
+						}
+						return item.Version(), nil
+					}
+					want, err := get()
+					if err != nil {
+						db.Close()
+						cleanup()
+						return &mismatch{"read.error", err.Error()}
+					}
+					rec := vh.Install(false)
+					gLevel := rec.Arm("get.level", nil)
+					gRepl := rec.Arm("compact.beforeReplace", nil)
+					gDel := rec.Arm("compact.beforeDelete", nil)
+					cdone := make(chan error, 1)
+					go func() { cdone <- compactFor(db, c, nlevels) }()
+					fail := func(sig string, d interface{}) *mismatch {
+						gLevel.Disarm()
+						gRepl.Disarm()
+						gDel.Disarm()
+						rec.Uninstall()
+						select {
+						case <-cdone:
+						case <-time.After(wait):
+						}
+						db.Close()
+						cleanup()
+						return &mismatch{sig, d}
+					}
+					if !gRepl.WaitParked(1, wait) {
+						select {
+						case err := <-cdone:
+							cdone <- err
+							if err == badger.ErrVerifNoFill {
+								return fail("compaction.notPicked", "the specification enables this compaction, the production picker selected nothing")
+							}
+							return fail("compaction.error", fmt.Sprint(err))
+						default:
+						}
+						return fail("harness.compactionNotParked", nil)
+					}
+					type rres struct {
+						v   uint64
+						err error
+					}
+					rdone := make(chan rres, 1)
+					var finished atomic.Bool
+					go func() { v, err := get(); finished.Store(true); rdone <- rres{v, err} }()
+					// wait until the read is parked before its next level, or has returned (it returns
+					// early when it finds exactly the version it asked for)
+					parkedOrDone := func() bool {
+						deadline := time.Now().Add(wait)
+						for time.Now().Before(deadline) {
+							if gLevel.NumParked() >= 1 || finished.Load() {
+								return true
+							}
+							time.Sleep(20 * time.Microsecond)
+						}
+						return false
+					}
+					advance := func(n int) bool { // let the read consult n more levels
+						for i := 0; i < n; i++ {
+							if !parkedOrDone() {
+								return false
+							}
+							if finished.Load() {
+								return true
+							}
+							gLevel.Release(nil)
+						}
+						return true
+					}
+					// the read is parked before level 0; consult p1 levels, then the first install step
+					if !parkedOrDone() {
+						return fail("harness.readNotParked", nil)
+					}
+					if !advance(p1) {
+						return fail("harness.readAdvance", nil)
+					}
+					gRepl.Release(nil)
+					if !gDel.WaitParked(1, wait) {
+						return fail("install.stuck", "compaction did not reach the point between replaceTables and deleteTables")
+					}
+					if p2 > p1 {
+						if !advance(p2 - p1) {
+							return fail("harness.readAdvance2", nil)
+						}
+					}
+					gDel.Release(nil)
+					select {
+					case err := <-cdone:
+						if err != nil {
+							cdone <- err
+							return fail("compaction.error", err.Error())
+						}
+					case <-time.After(wait):
+						return fail("install.hang", nil)
+					}
+					gLevel.Disarm()
+					var r rres
+					select {
+					case r = <-rdone:
+					case <-time.After(wait):
+						cdone <- nil
+						return fail("read.hang", nil)
+					}
+					rec.Uninstall()
+					db.Close()
+					cleanup()
+					if r.err != nil {
+						return &mismatch{"read.error", r.err.Error()}
+					}
+					if r.v != want {
+						kind := "changed"
+						if want == 0 {
+							kind = "resurrected"
+						} else if r.v == 0 {
+							kind = "lost"
+						}
+						return &mismatch{"install.read" + kind, fmt.Sprintf("Get(k%d)@%d returns version %d without a compaction and %d when %d levels were consulted before replaceTables and %d before deleteTables (%s, pre %s)", k, ts, want, r.v, p1, p2, c.Fam, layoutKey(c.Pre))}
+					}
+				}
+			}
+		}
+	}
+	return nil
+}
+
+func runCase(c Case, inmem bool) *mismatch {
+	nlevels := len(c.Pre.Lv) + 1
+	db, o, dir, cleanup, m0 := buildPre(c, inmem)
+	defer cleanup()
+	if db != nil {
+		defer db.Close()
+	}
+	if m0 != nil {
+		return m0
+	}
+	var err error
 	// the property itself, judged on the real DB only: every read at or above the discard
 	// watermark must be the same before and after the compaction (C12)
 	maxTs := 0
@@ -348,27 +550,7 @@ func runCase(c Case, inmem bool) *mismatch {
 	if m != nil {
 		return m
 	}
-	switch c.Fam {
-	case "L0ToBase":
-		err = db.VerifDoCompact(1, 0, 1.0, 1.0)
-	case "L0ToL0":
-		err = db.VerifDoCompact(0, 0, 1.0, 0.5)
-	case "LevelDown":
-		// the level is implied by the pre-state: the first non-empty level below L0 that is not the last
-		lvl := -1
-		for i, l := range c.Pre.Lv {
-			if len(l) > 0 && i+1 < nlevels-1 {
-				lvl = i + 1
-				break
-			}
-		}
-		if lvl < 0 {
-			vh.Fatalf("LevelDown case without a source level")
-		}
-		err = db.VerifDoCompact(1, lvl, 1.0, 1.0)
-	default:
-		vh.Fatalf("unknown family %q", c.Fam)
-	}
+	err = compactFor(db, c, nlevels)
 	if err != nil {
 		if err == badger.ErrVerifNoFill {
 			return &mismatch{"compaction.notPicked", "the specification enables this compaction, the production picker selected nothing"}
@@ -553,6 +735,7 @@ func main() {
 	shard := flag.Int("shard", 0, "")
 	nshard := flag.Int("nshards", 1, "")
 	inmem := flag.Bool("inmem", false, "in-memory mode")
+	install := flag.Bool("install", false, "interleave one read with the two installation steps (LSMInstall.tla)")
 	flag.Parse()
 	enc := json.NewEncoder(os.Stdout)
 	idx := 0
@@ -572,7 +755,12 @@ func main() {
 		if unbuildable(c) {
 			return enc.Encode(map[string]interface{}{"case": i, "ok": true, "fam": c.Fam, "skipped": true})
 		}
-		m := runCase(c, *inmem)
+		var m *mismatch
+		if *install {
+			m = runInstall(c)
+		} else {
+			m = runCase(c, *inmem)
+		}
 		out := map[string]interface{}{"case": i, "ok": m == nil, "fam": c.Fam}
 		if m != nil {
 			out["sig"], out["detail"] = m.Sig, m.Detail
